@@ -57,6 +57,29 @@ def KeyPred.toRe : KeyPred → Rx.Re
 def KeyPred.matches (k : KeyPred) (entity : Text) : Bool :=
   (Rx.matchAt entity.toArray k.toRe 0).isSome
 
+/-! ### the pattern TEXT `_compile_rule` hands to `re.compile` (round 4)
+
+`compileKey` above receives the compiled expression of a `re:` key from the translator.  What is compiled is decided
+here, on texts: the marker test, the slice, `re.escape`, the `$`.  The `c14.keytext` correspondence compares
+`compiledKeyText key` with `rule["key"].pattern` of the real compiled rule, and checks that the translation of that
+pattern is `escapedDollar key` (literal branch, `litDollarText`) resp. is what `compileKey` receives (`re:` branch). -/
+
+/-- `re.escape(s)` (CPython ≥ 3.7): a backslash before every character of `re._special_chars_map` -/
+def reEscape (s : Text) : Text :=
+  s.flatMap (fun c => if Gen.Tables.reEscapeSpecials.contains c then [92, c] else [c])
+
+/-- tail of `_compile_rule`: `key[3:]` if `key.startswith("re:")`, else `re.escape(key) + "$"` -/
+def compiledKeyText (key : Text) : Text :=
+  if Gen.Tables.ruleKeyRePrefix.isPrefixOf key then key.drop Gen.Tables.ruleKeyReSlice
+  else reEscape key ++ Gen.Tables.ruleKeyLiteralSuffix
+
+/-- the text `s` if the expression is `s` as literals followed by a non-MULTILINE `$` — the shape of
+    `escapedDollar s` — else `none` -/
+def litDollarText : Rx.Re → Option Text
+  | .eol false => some []
+  | .seq (.lit c) r => (litDollarText r).map (c :: ·)
+  | _ => none
+
 /-- a raw key string of a rule together with `re.compile(text[len("re:"):])`
     (only meaningful when `text` starts with `re:`; supplied by the translator) -/
 structure RawKey where
